@@ -52,7 +52,10 @@ MapPath(m) == CASE m = "hash" -> "::std::collections::HashMap" [] m = "btree" ->
                 [] m = "mymap" -> "crate::support::MyMap"
 AllMapPaths == {"::std::collections::HashMap", "::std::collections::BTreeMap", "crate::support::MyMap"}
 MapOK(items, m) ==
-    /\ \A f \in {"mapv", "fmap", "nummap"} : HasField(items, "Hub", f) /\ Mentions(Field(items, "Hub", f), MapPath(m))
+    /\ \A f \in {"mapv", "fmap", "nummap", "keymap", "patmap", "keymapint"} :
+          HasField(items, "Hub", f) /\ Mentions(Field(items, "Hub", f), MapPath(m))
+    (* only string-to-any maps are exempt: maps with constrained keys are not *)
+    /\ \A f \in {"keymap", "patmap", "keymapint"} : ~Mentions(Field(items, "Hub", f), "::serde_json::Map")
     /\ HasField(items, "Other", "m") /\ Mentions(Field(items, "Other", "m"), MapPath(m))
     /\ \A x \in AllFields(items) : \A p \in AllMapPaths \ {MapPath(m)} : ~Mentions(x, p)
     (* string-to-any maps are the documented exception *)
